@@ -90,7 +90,7 @@ PROPS["C09"] = {
     "level": "exploration",
     "technique": "stateful property-based testing (rapidcheck): generated operation sequences on one Encoder against a counter/identity model",
     "rule": "cases = sequences of 1..8 (thorough ..14) operations {setDeviceId, setStreamId (a third of them re-apply the value "
-            "already configured), restart, encode via the three overloads (a third of the batches hold packets with a zero-length payload, which open frames without messages), encode 20000..33000 one-byte packets with max=25}; non-trivial when the 16-bit counter wraps, or an id "
+            "already configured), restart, encode via the three overloads (a third of the batches hold packets with a zero-length payload, which open frames without messages; one in eight a packet of message type 0), encode 20000..33000 one-byte packets with max=25}; non-trivial when the 16-bit counter wraps, or an id "
             "change/restart after emitted frames is followed by another encode; distinct = distinct serialized sequences",
     "assumptions": COMMON_ASSUMPTIONS,
     "level_text": "Model-based search over operation histories: every emitted frame header and getSequenceCounter() are compared "
@@ -299,7 +299,7 @@ PROPS["C11"] = {
     "level": "exploration",
     "technique": "stateful property-based testing (rapidcheck) + exhaustive value sweeps: every setter against a field-map model, all getters compared after each write",
     "rule": "cases = (class out of 18 header / payload classes incl. TECMP, prior state from an all-zero / all-ones / pseudo-random image, "
-            "sequence of 1..16 (thorough ..40) in-range writes incl. the TECMP group setters of 0..12 raw bytes and Packet::setPayload with any known type x arbitrary bytes x length 0..79 and setData of CAN / CAN-FD / LIN / Ethernet with its effects on the length and DLC fields) and, exhaustively, every in-range value of every field <= 16 bits on the "
+            "sequence of 1..16 (thorough ..40) in-range writes incl. the TECMP group setters of 0..12 raw bytes and Packet::setPayload with any known type x arbitrary bytes x length 0..79 and setData of CAN / CAN-FD / LIN / Ethernet with its effects on the length and DLC fields, and setData of the capture-module / interface variable part; half of the prior images of classes with a data length carry a length that agrees with the data area) and, exhaustively, every in-range value of every field <= 16 bits on the "
             "three backgrounds with boolean flags set and cleared in both orders; non-trivial when a write on a non-zero background "
             "changes the value; distinct = distinct serialized cases (an exhaustive sweep case covers up to 65536 writes, counted in "
             "counters.writes)",
@@ -320,7 +320,7 @@ PROPS["C11"] = {
 PROPS["C12"] = {
     "level": "exploration",
     "technique": "property-based testing (rapidcheck) + exhaustive / boundary value sweeps against an external wire-layout table (byte offset, width, bit position, big-endian)",
-    "rule": "cases = (a) API writes of in-range values onto objects with zero / ones / pseudo-random images, raw bytes compared with the "
+    "rule": "cases = (a) API writes of in-range values (incl. setData of CAN / CAN-FD / LIN / Ethernet: length and DLC bytes) onto objects with zero / ones / pseudo-random images (half of them with a data length that agrees with the data area), raw bytes compared with the "
             "image the layout table prescribes (exactly the field's bits replaced); (b) hand-laid images read back through every "
             "getter; (c) default objects: reserved bits zero, header sizes; (d) Packet::getRawCmpHeader / getRawMessageHeader for "
             "generated packets of every message type; (e) the length-prefixed variable part of the capture-module / interface payloads, written onto fresh objects and over earlier content (setData or raw bytes), all raw bytes compared with the independent builder, and read back from hand-laid bytes; non-trivial when the field is wider than a byte or narrower than its container "
